@@ -1257,6 +1257,9 @@ def run(ctx):
     # the whole-image ("chip") footprint: model TW.Chip.chipPolygon, op `chipborder`
     from . import c16_chipborder
     c16_chipborder.run_extra(ctx)
+    # the spherical part of RefCatalog._calc_cat_convex_hull: model TW.Sph.*, ops `sph.*`
+    from . import c16_sphhull
+    c16_sphhull.run_extra(ctx)
     logging.disable(logging.NOTSET)
 
 
@@ -1299,6 +1302,9 @@ def replay(ctx, payload):
         elif case.get('op') == 'chipborder':
             from . import c16_chipborder
             c16_chipborder.replay_case(ctx, case)
+        elif case.get('op') in ('sphhull', 'sph.prot'):
+            from . import c16_sphhull
+            c16_sphhull.replay_case(ctx, case)
         elif rebuild(ctx, rec, case, lines, pending) is None and case.get('op') not in ('image', 'group', 'refcat'):
             print('probe case: re-running the fixed-witness probes')
             probes(ctx, rec, lines, pending)
